@@ -469,3 +469,63 @@ Proof. constructor.
   - unfold x'. transitivity (o_quiescent o); [destruct e; reflexivity | apply os_q].
   - apply os_heal. Qed.
 End OneStep.
+
+(* ---------- the four codes on the model's own observation ---------- *)
+Lemma o_st_model n s r fs c : In c (nrange n) -> o_st (model_obs n s r fs) c = st_bits (status_of s c).
+Proof. intros H. unfold o_st, model_obs, o_status. now apply (nth_nrange (fun c => st_bits (status_of s c))). Qed.
+Lemma o_dm_model n s r fs c : o_dm (model_obs n s r fs) c = match aget c (ipfs s) with Some d => Some (mode_code d) | None => None end.
+Proof. unfold o_dm, model_obs, o_daemon. apply aget_map_snd. Qed.
+Lemma err_bits_status x : err_bits (st_bits x) = is_error x.
+Proof. destruct x; reflexivity. Qed.
+
+Lemma code14_ok n s x r fs : MI s x -> opts_ok x (model_obs n s r fs) = true.
+Proof. intros M. unfold opts_ok, model_obs, o_inflight. apply forallb_forall. intros q Hq. apply in_map_iff in Hq. destruct Hq as [cl [<- Hcl]].
+  destruct (inv_calls _ (mi_inv _ _ M) _ Hcl) as (o0 & Ho & _ & _ & Hty). unfold call_obs. destruct (ckd cl); cbn [kind_type] in Hty; [|reflexivity..].
+  rewrite Ho. cbn. destruct (mi_hist_t _ _ M _ _ Ho Hty) as [A B]. apply existsb_exists. exists (opin o0). split; auto.
+  now rewrite B, !N.eqb_refl. Qed.
+
+Lemma code10_ok n s x r fs : MI s x -> quiescent s = true -> conv_ok n x (model_obs n s r fs) = true.
+Proof. intros M Q. pose proof (mi_inv _ _ M) as I. pose proof (mi_linv _ _ M) as L.
+  unfold conv_ok. apply forallb_forall. intros c Hc. rewrite (o_st_model n s r fs c Hc), o_dm_model, err_bits_status.
+  apply andb_true_iff. split; [apply andb_true_iff; split|].
+  - rewrite (mi_pinset _ _ M). destruct (aget c (pinset s)) as [p|] eqn:Hp; auto. destruct (C05_Check.local_pin p) eqn:Hloc; auto.
+    destruct (converged false s I L Q c) as [Cv _]. destruct (Cv p Hp Hloc) as [H|H]; [|rewrite H; apply orb_true_r].
+    apply ipfs_has_eq in H. rewrite H. cbn. now rewrite N.eqb_refl.
+  - destruct (memN c (sp_unt x)) eqn:Mu; auto. apply memN_in in Mu. destruct (mi_unt _ _ M c Mu) as [A B].
+    destruct (aget c (table s)) as [o0|] eqn:Ho; [|rewrite (B eq_refl); reflexivity].
+    destruct (lab_untrack s c L A) as [_ Hu]. unfold status_of. rewrite Ho. unfold op_status. rewrite (Hu o0 Ho), (quiescent_errors s I Q c o0 Ho). apply orb_true_r.
+  - destruct (memN c (sp_remok x)) eqn:Mr; auto. apply memN_in in Mr. destruct (mi_remok _ _ M c Mr) as (_ & B & _). now rewrite B. Qed.
+
+(* tracker_recover_heals for an untracked cid, with the per-cid fact in the place of "no daemon interference at all" *)
+Lemma recover_heals_u s ord s1 evs c : Inv s -> LInv false s -> quiescent s = true ->
+  step s (ERecoverAll ord) = (s1, ROk) -> Forall ok_complete evs -> quiescent (run s1 evs) = true ->
+  Uc s c -> aget c (ipfs (run s1 evs)) = None.
+Proof. intros I L Q Hs Hf Q2 [Hl Hu]. apply recover_all_parts in Hs as [-> Hr]. symmetry in Hr.
+  pose proof (status_all0_nodup s (inv_nodup _ I) (li_pnodup _ _ L)) as Nd.
+  assert (Xall : forall c' x, In (c', x) (order_by ord (status_all s 0)) -> x_ok s c' x).
+  { intros c' x Hin. apply order_by_in in Hin; auto. apply entry_xok. apply status_all0_in; auto. apply I. apply L. }
+  assert (Hentry : forall x, entry_of s c = Some x -> In (c, x) (order_by ord (status_all s 0))).
+  { intros x Hx. apply order_by_in; auto. apply status_all0_in; auto. apply I. apply L. }
+  pose proof (recover_list_inv (order_by ord (status_all s 0)) s I) as I1. fold (recover_all s ord) in I1.
+  destruct (lab_untrack s c L Hl) as [Lp Lt]. pose proof (quiescent_errors s I Q c) as Qe.
+  apply (goodu_quiescent c); auto; [now apply run_inv, dispatch_inv|].
+  apply goodu_run; auto; [now apply dispatch_inv|].
+  apply (goodu_frame c (fst (recover_all s ord))); auto using dispatch_frame, dispatch_pinset; [now rewrite dispatch_ipfs|].
+  unfold recover_all in *. apply (recover_list_goodu c false); auto; [now apply order_by_nodup|].
+  unfold goodu, needsu, entry_of in *. destruct (aget c (table s)) as [o0|] eqn:Ho.
+  - right. exists SUnpinError. split; [|repeat split; auto; now rewrite (Qe o0 eq_refl)].
+    apply Hentry. f_equal. unfold op_status. now rewrite (Qe o0 eq_refl), (Lt o0 eq_refl).
+  - left. split; auto. Qed.
+
+Lemma code13_ok n s x r fs d0 : MI s x -> quiescent s = true -> sp_heal x = Some d0 -> heal_ok n x d0 (model_obs n s r fs) = true.
+Proof. intros M Q Hh. destruct (mi_heal _ _ M d0 Hh) as (s0 & ord & s1 & evs & I0 & L0 & Q0 & St & Fo & -> & -> & Hps & Hun).
+  unfold heal_ok. apply forallb_forall. intros c Hc. rewrite o_dm_model. apply andb_true_iff. split.
+  - rewrite (mi_pinset _ _ M), <- Hps. destruct (aget c (pinset s0)) as [p|] eqn:Hp; auto.
+    destruct (C05_Check.local_pin p && negb (pdirect p && optN_eqb (aget c (dmobs s0)) (Some 1))) eqn:Cnd; auto.
+    apply andb_true_iff in Cnd. destruct Cnd as [Hloc Hnr]. apply negb_true_iff in Hnr.
+    destruct (recover_heals false s0 ord s1 evs I0 L0 Q0 St Fo Q c) as [H _].
+    assert (Hnot : ~ (pdirect p = true /\ aget c (ipfs s0) = Some false)).
+    { intros [A B]. rewrite A in Hnr. unfold dmobs in Hnr. rewrite aget_map_snd, B in Hnr. discriminate. }
+    specialize (H p Hp Hloc Hnot). apply ipfs_has_eq in H. rewrite H. cbn. now rewrite N.eqb_refl.
+  - destruct (memN c (sp_unt x)) eqn:Mu; auto. apply memN_in in Mu.
+    rewrite (recover_heals_u s0 ord s1 evs c I0 L0 Q0 St Fo Q (Hun c Mu)). reflexivity. Qed.
